@@ -390,6 +390,41 @@ def trust_gate(mod):
     return sorted(found - _ALLOWED_BIG)
 
 
+_KNOWN_CURVE_GLOBALS = {"Q", "L", "d", "I", "B", "Bx", "By", "Base", "Zero", "_zero_bytes"}
+
+
+def _holds_big(v, depth=0):
+    if isinstance(v, bool):
+        return False
+    if isinstance(v, int):
+        return abs(v) > 2**64
+    if depth > 3:
+        return False
+    if isinstance(v, (list, tuple, set, frozenset)):
+        return any(_holds_big(i, depth + 1) for i in list(v)[:64])
+    if isinstance(v, dict):
+        return any(_holds_big(i, depth + 1) for i in list(v.values())[:64]) or any(_holds_big(i, depth + 1) for i in list(v.keys())[:64])
+    xy = getattr(v, "XYTZ", None)
+    if xy is not None:
+        return _holds_big(xy, depth + 1)
+    return False
+
+
+def derived_state_gate(mod):
+    """module-level values of the copied module (other than the known curve constants) that hold field-sized integers: tables or
+    points precomputed at import from the real curve.  Patching Q, L, d, B afterwards would leave them stale, so a toy instance
+    built from such a module would mis-report a correct optimisation as a defect."""
+    bad = []
+    for k, v in vars(mod).items():
+        if k in _KNOWN_CURVE_GLOBALS or k.startswith("__"):
+            continue
+        if isinstance(v, (types.FunctionType, types.ModuleType, type)):
+            continue
+        if _holds_big(v):
+            bad.append(k)
+    return sorted(bad)
+
+
 _TOY_MODS = {}
 
 
@@ -415,6 +450,9 @@ def load_toy_ed_module(Q, d, L):
     bad = trust_gate(m)
     if bad:
         raise HarnessError("inlined-constant: %s" % [hex(b) for b in bad[:3]])
+    stale = derived_state_gate(m)
+    if stale:
+        raise HarnessError("module-level state derived from the curve constants at import (%s): toy re-parametrisation would leave it stale" % ", ".join(stale[:4]))
     R = RefEdwards(Q, d, L)
     m.Q, m.L, m.d = Q, L, d % Q
     m.I = pow(2, (Q - 1) // 4, Q)
